@@ -26,10 +26,27 @@ def export(ctx, scenario, timeout=1500):
     return cases, qs, keys, ids
 
 
+def compact_keeps_invalid_area(src, eff):
+    """an area of the source that the spec drops although every one of its paths is kept (open or short path)"""
+    for n, f in src.items():
+        if f["kind"] == "area" and eff[n]["kind"] == "absent":
+            paths = [p for poly in f["polys"] for p in poly]
+            if paths and all(eff.get(p, {"kind": "absent"})["kind"] == "path" for p in paths):
+                return True
+    return False
+
+
+def compact_no_point(src):
+    kinds = [f["kind"] for f in src.values() if f["kind"] != "absent"]
+    return bool(kinds) and "point" not in kinds
+
+
 def run_static(ctx, prop, scenario, variants, sections, rule, level="model_checking", assumptions=None,
-               max_cases=None, finish=True, interesting=None):
+               max_cases=None, finish=True, interesting=None, race=False):
     """variants: list of dicts {impl, cores, split} -- every exported case is run once per variant."""
-    binary = ctx.go_build("vh-world")
+    binary = ctx.go_build("vh-world", race=race)
+    if race:
+        os.environ["GORACE"] = "halt_on_error=1 exitcode=66"
     exported, qs, keys, ids = export(ctx, scenario)
     rng = random.Random(ctx.seed * 104729 + scenario)
     if interesting is not None:
@@ -39,7 +56,25 @@ def run_static(ctx, prop, scenario, variants, sections, rule, level="model_check
         exported = exported[:max_cases]
     cases = []
     for v in variants:
+        # a compact build costs ~3 s of CPU and ~600 MB whatever its size: variants may cap their number of cases
+        vmax = v.get("max")
+        if isinstance(vmax, (list, tuple)):
+            vmax = ctx.pick(vmax[0], vmax[1])
+        taken = 0
         for c in exported:
+            if vmax is not None and taken >= vmax:
+                break
+            taken += 1
+            if "compact" in v["impl"] or v["impl"] in ("diff", "layered-mixed"):
+                # two known deviations of the compact builder are kept out of the properties they do not belong to:
+                # it keeps areas over open/short paths (C37, known finding) and it crashes on a source that has a
+                # relation or path but no point at all (C01, known finding)
+                if compact_keeps_invalid_area(c["src"], c["eff"]) or compact_no_point(c["src"]):
+                    if not v.get("all_sources"):
+                        continue
+                if v["impl"].startswith("layered") and (compact_keeps_invalid_area(c["upper"], c["ueff"]) or compact_no_point(c["upper"])):
+                    if not v.get("all_sources"):
+                        continue
             k = dict(c)
             k.update({"id": len(cases), "impl": v["impl"], "cores": v.get("cores", 1), "split": v.get("split", 1),
                       "keys": keys, "ids": ids, "queries": qs, "sections": sections})
